@@ -17,6 +17,7 @@ CONTIG_LENGTH = 60
 
 # (1-based position, REF, ALT, GT of S1, S2, S3, class)
 TEMPLATE = [
+    (1, 'C', 'A', '0|0', '1|1', '0|1', 'informative site on the first base of the contig (0-based position 0 on c1)'),
     (2, 'A', 'G', '0|0', '1|1', '0|0', 'hom-different'),
     (3, 'T', 'A', '0|1', '0|0', '1|1', 'het (adjacent to the previous site)'),
     (5, 'G', 'C', '1|1', '1|1', '1|1', 'identical in all samples'),
